@@ -28,6 +28,8 @@ def item_vars(it):
 def cond_vars(c):
     if c[0] == "if":
         return set(c[2])
+    if c[0] == "letc":
+        return {c[1]}
     return {c[1]} | set(c[3])
 
 
@@ -42,6 +44,8 @@ def rename_rule(r, vmap, rmap):
     def cd(c):
         if c[0] == "if":
             return ("if", c[1], [vmap(x) for x in c[2]])
+        if c[0] == "letc":
+            return ("letc", vmap(c[1]), c[2])
         return (c[0], vmap(c[1]), c[2], [vmap(x) for x in c[3]])
 
     def it(i):
@@ -99,7 +103,7 @@ def gen_cases(tier, seed):
     cases = []
     for i in range(n):
         pure = (i % 2 == 0)
-        opts = dict(exprs=False, p_clause=1.0, p_clause_cond=0.0) if pure else {}
+        opts = dict(exprs=False, p_clause=1.0, p_clause_cond=0.0, p_leading_binder=0.0) if pure else {}
         p = gen_dl.gen_program(rng, opts)
         inputs = [gen_dl.gen_input(rng, p["rels"], style=rng.choice(["small", "mixed", "sparse_chain"]))[0] for _ in range(2)]
         cases.append(dict(id="c06_%d" % i, prog=p, inputs=inputs, pure=pure, variants=variants(rng, p, inputs, pure)))
